@@ -621,31 +621,34 @@ def proj (s2 : G2 × List Req2) : G × List Req := (s2.1.g, s2.2.map pr)
 
 /-- the old generator is stopped and none of its ticks is in flight -/
 def OldInert (s2 : G2 × List Req2) : Prop :=
-  s2.1.oldStopped = true ∧ ∀ q ∈ s2.2, q.old = true → q.r.out = .pending → q.r.pc = 0
+  s2.1.oldStopped = true ∧ ∀ q ∈ s2.2, q.stop = false ∧ (q.old = true → q.r.out = .pending → q.r.pc = 0)
 
 theorem step_nonpending (g : G) (r : Req) (h : r.out ≠ .pending) : step g r = (g, r) := by
   unfold step failExit; simp [h]
 
-theorem step2_sim (g2 : G2) (q : Req2) (hs : g2.oldStopped = true)
+theorem step2_sim (g2 : G2) (q : Req2) (hs : g2.oldStopped = true) (hst : q.stop = false)
     (hq : q.old = true → q.r.out = .pending → q.r.pc = 0) :
     (step2 g2 q).1.g = (step g2.g (pr q)).1 ∧ pr (step2 g2 q).2 = (step g2.g (pr q)).2 ∧
-    (step2 g2 q).1.oldStopped = true ∧
+    (step2 g2 q).1.oldStopped = true ∧ (step2 g2 q).2.stop = false ∧
     ((step2 g2 q).2.old = true → (step2 g2 q).2.r.out = .pending → (step2 g2 q).2.r.pc = 0) := by
   cases hold : q.old with
   | false =>
-    unfold step2 pr; simp [hold, hs]
+    unfold step2 pr; simp [hold, hs, hst]
   | true =>
     have hpr : (pr q).out ≠ .pending := by unfold pr; simp [hold]
     rw [step_nonpending _ _ hpr]
     by_cases hp : q.r.out = .pending
     · have hpc := hq hold hp
-      unfold step2 pr; simp [hold, hs, hp, hpc]
+      unfold step2 pr; simp [hold, hs, hp, hpc, hst]
     · unfold step2
-      simp only [hold, if_true]
+      simp only [hold, hst, if_true]
       have hn : ¬ (g2.oldStopped = true ∧ q.r.pc = 0 ∧ q.r.out = .pending) := fun h => hp h.2.2
-      simp only [hn, if_false]
+      simp [hn]
       rw [step_nonpending _ _ hp]
-      refine ⟨by cases g2; rename_i g _ _ _; cases g; rfl, by unfold pr; simp [hold], hs, fun _ h => absurd h hp⟩
+      refine ⟨?_, by unfold pr; simp [hold], hs, fun h => absurd h hp⟩
+      unfold oldView
+      cases g2 with
+      | mk g ol oc os sh => cases g; cases sh <;> rfl
 
 theorem sim_exec (s2 : G2 × List Req2) (e : Ev) (h : OldInert s2) :
     proj (machine2.exec s2 e) = machine.exec (proj s2) e ∧ OldInert (machine2.exec s2 e) := by
@@ -661,21 +664,23 @@ theorem sim_exec (s2 : G2 × List Req2) (e : Ev) (h : OldInert s2) :
       by_cases hold : q.old = true
       · simp only [hold, if_true]; unfold restartL; split <;> simp
       · simp [hold]
-    · intro q hqm hold hp
+    · intro q hqm
       rcases List.mem_map.1 hqm with ⟨q', hq', rfl⟩
+      refine ⟨(hq q' hq').1, ?_⟩
+      intro hold hp
       revert hp; simp only [restartL2]; unfold restartL
       split
       · simp
-      · intro hp; exact hq q' hq' hold hp
+      · intro hp; exact (hq q' hq').2 hold hp
   | step t =>
     simp only [Machine.exec, machine2, machine, proj]
     cases hr : s2.2[t]? with
     | none => simp [hr]; exact ⟨hs, hq⟩
     | some q =>
       have hmem := mem_of_getElem? _ _ _ hr
-      obtain ⟨a, b, c, d⟩ := step2_sim s2.1 q hs (hq q hmem)
+      obtain ⟨a, b, c, d1, d2⟩ := step2_sim s2.1 q hs (hq q hmem).1 (hq q hmem).2
       simp [hr, List.map_set, a, b]
-      exact ⟨c, forall_set _ s2.2 t _ hq d⟩
+      exact ⟨c, forall_set _ s2.2 t _ hq ⟨d1, d2⟩⟩
 
 theorem sim_run (s2 : G2 × List Req2) (evs : List Ev) (h : OldInert s2) :
     proj (machine2.run s2 evs) = machine.run (proj s2) evs := by
@@ -694,11 +699,12 @@ theorem sim_run (s2 : G2 × List Req2) (evs : List Ev) (h : OldInert s2) :
 theorem reload_discharges (g2 : G2) (qs : List Req2) (hstop : g2.oldStopped = true)
     (hm : g2.g.mutex = true) (hl : g2.g.lock = false)
     (hsorted : g2.g.log.Pairwise (fun a b => a.number > b.number)) (hcrl : g2.g.crl = g2.g.log.head?)
-    (hfresh : ∀ q ∈ qs, q.r.fresh) (evs : List Ev) :
+    (hfresh : ∀ q ∈ qs, q.r.fresh ∧ q.stop = false) (evs : List Ev) :
     (numbers (machine2.run (g2, qs) evs).1.g).Pairwise (· < ·) ∧
     ∃ new, (machine2.run (g2, qs) evs).1.g.log = new ++ g2.g.log ∧
       ∀ c ∈ new, c.nextUpdate = c.thisUpdate + g2.g.cache := by
-  have hin : OldInert (g2, qs) := ⟨hstop, fun q hq _ _ => (hfresh q hq).1⟩
+  have hfresh' : ∀ q ∈ qs, q.r.fresh := fun q hq => (hfresh q hq).1
+  have hin : OldInert (g2, qs) := ⟨hstop, fun q hq => ⟨(hfresh q hq).2, fun _ _ => (hfresh q hq).1.1⟩⟩
   have hsim := sim_run (g2, qs) evs hin
   have hinv : Inv (proj (g2, qs)) := by
     refine ⟨hm, hsorted, hcrl, ?_, ?_⟩
@@ -706,11 +712,11 @@ theorem reload_discharges (g2 : G2) (qs : List Req2) (hstop : g2.oldStopped = tr
       intro q hq
       unfold pr; split
       · rfl
-      · exact (hfresh q hq).2.1
+      · exact (hfresh' q hq).2.1
     · intro r hr
       simp only [proj] at hr
       rcases List.mem_map.1 hr with ⟨q, hq, rfl⟩
-      obtain ⟨h1, h2, h3⟩ := hfresh q hq
+      obtain ⟨h1, h2, h3⟩ := hfresh' q hq
       unfold pr Loc; split <;> simp [h1, h2, h3]
   have h1 := numbers_increase_inv (proj (g2, qs)) hinv evs
   have h2 := interval_new (proj (g2, qs)) evs
@@ -725,12 +731,12 @@ def tick (old : Bool) (now : Nat) : Req2 := { old := old, r := genReq now }
     3600 s), and an old tick interleaved with a new generation stores the same number twice —
     the two authorities have different mutexes. -/
 theorem reload_without_stop :
-    ∃ (g2 : G2) (qs : List Req2) (evs evs' : List Ev), g2.oldStopped = false ∧ g2.g.mutex = true ∧
+    ∃ (g2 : G2) (qs : List Req2) (evs evs' : List Ev), g2.oldStopped = false ∧ g2.shared = false ∧ g2.g.mutex = true ∧
       g2.g.lock = false ∧ g2.oldLock = false ∧ g2.g.log = [] ∧ g2.g.crl = none ∧ (∀ q ∈ qs, q.r.fresh) ∧
       (machine2.run (g2, qs) evs).1.g.log.map (fun c => c.nextUpdate - c.thisUpdate) = [600, 3600] ∧
       numbers (machine2.run (g2, qs) evs').1.g = [0, 0] :=
   ⟨{ g := { revoked := [], crl := none, log := [], lock := false, cache := 3600, mutex := true },
-     oldLock := false, oldCache := 600, oldStopped := false },
+     oldLock := false, oldCache := 600, oldStopped := false, shared := false },
    [tick false 10, tick true 12],
    [.step 0, .step 0, .step 0, .step 0, .step 0, .step 0, .step 1, .step 1, .step 1, .step 1, .step 1, .step 1],
    [.step 0, .step 1, .step 0, .step 1, .step 0, .step 1, .step 0, .step 1, .step 0, .step 1, .step 0, .step 1],
@@ -742,6 +748,33 @@ def g2stopped : G2 := { g := { revoked := [], crl := none, log := [], lock := fa
 example : (machine2.run (g2stopped, [tick false 10, tick true 12])
    [.step 0, .step 1, .step 0, .step 1, .step 0, .step 1, .step 0, .step 1, .step 0, .step 1, .step 0, .step 1]).1.g.log.map
      (fun c => (c.number, c.nextUpdate - c.thisUpdate)) = [(0, 3600)] := by decide
+def c0 : CRLRec := { number := 0, thisUpdate := 5, nextUpdate := 3605, entries := [] }
+
+/-- the state `ca.Reload` finds when a generation of the old authority is in flight: it holds the old
+    mutex, has read the stored number 0 and has listed the (empty) revoked table -/
+def inflightState : G2 × List Req2 :=
+  ({ g := { revoked := [], crl := some c0, log := [c0], lock := false, cache := 3600, mutex := true },
+     oldLock := true, oldCache := 3600, oldStopped := true, shared := false },
+   [{ old := true, r := { inp := { kind := .gen, key := [], record := ⟨0, none⟩, now := 9 }, pc := 4, holding := true, prev := some 0 } },
+    { old := false, r := genReq 10 },
+    { old := false, r := { inp := { kind := .revoke true, key := Verif.s "16", record := ⟨11, none⟩, now := 11 } } }])
+
+/-- **reload_inflight_overlap (historic refutation, D18, fixed in /repo by 7329bb4; `shared := false` is the code before).**
+    With one mutex per authority `reload_discharges` needs the reload to be quiescent: if a
+    generation of the old authority is in flight when the new authority is built (`ca.Reload` calls `New`,
+    whose start-up generation runs under the NEW mutex, before `CloseForReload`), then even with the old
+    ticker stopped there is a schedule in which the numbers stored are 0, 1, 2, 1: the new authority stores
+    1 (start-up) and 2 (a generate-on-revoke revocation it acknowledges), then the old request, which had read
+    0 and listed before the revocation, stores 1 — the served number goes back and the acknowledged serial is
+    not in the served list. -/
+theorem reload_inflight_overlap :
+    ∃ evs, (fun s : G2 × List Req2 =>
+      (numbers s.1.g, s.2.map (·.r.out), s.1.g.crl.map (fun c => (c.number, c.entries))))
+      (machine2.run inflightState evs) = ([0, 1, 2, 1], [.ok, .ok, .ok], some (1, [])) :=
+  ⟨[.step 1, .step 1, .step 1, .step 1, .step 1, .step 1,
+    .step 2, .step 2, .step 2, .step 2, .step 2, .step 2, .step 2,
+    .step 0, .step 0], by decide⟩
+
 /-! ## 5. errors inside a generation -/
 
 /-- **failed_generation_harmless.** A generation that fails inside the critical section
@@ -823,7 +856,438 @@ example : (fun s : G × List Req => (numbers s.1, s.2.map (·.out), s.1.lock))
       [genReq 10, genFail 11 4, genReq 12])
       [.step 0, .step 0, .step 0, .step 0, .step 0, .step 0, .step 1, .step 1, .step 1, .step 1, .step 1,
        .step 2, .step 2, .step 2, .step 2, .step 2, .step 2]) = ([0, 1], [.ok, .err, .ok], false) := by decide
+/-! ## 5b. what the handler serves -/
+
+/-- the stored list is the newest one ever stored (it is the head of the history) -/
+theorem served_is_newest (g : G) (rs : List Req) (hm : g.mutex = true) (hl : g.lock = false)
+    (hsorted : g.log.Pairwise (fun a b => a.number > b.number)) (hcrl : g.crl = g.log.head?)
+    (hfresh : ∀ r ∈ rs, r.fresh) (evs : List Ev) :
+    (machine.run (g, rs) evs).1.crl = (machine.run (g, rs) evs).1.log.head? ∧
+    ∀ c ∈ (machine.run (g, rs) evs).1.log, ∀ d, (machine.run (g, rs) evs).1.crl = some d → c.number ≤ d.number := by
+  have h := Machine.run_inv machine Inv (fun s e h => inv_exec s e h) evs (g, rs)
+    (inv_init g rs hm hl hsorted hcrl hfresh)
+  refine ⟨h.2.2.1, ?_⟩
+  intro c hc d hd
+  rw [h.2.2.1] at hd
+  cases hlog : (machine.run (g, rs) evs).1.log with
+  | nil => rw [hlog] at hc; cases hc
+  | cons x rest =>
+    rw [hlog] at hc hd
+    have hp := h.2.1; rw [hlog] at hp
+    simp at hd; subst hd
+    rcases List.mem_cons.1 hc with h1 | h1
+    · subst h1; exact Nat.le_refl _
+    · exact Nat.le_of_lt ((List.pairwise_cons.1 hp).1 c h1)
+
+/-- **served_response_exact.** From an empty database, in every history: whenever `GET /crl` (or `/1.0/crl`)
+    answers 200, the body is the newest list ever stored, its number is the largest stored, and the `Expires`
+    header is that list's NextUpdate = its thisUpdate + the configured cache duration; with publication
+    disabled the answer is 404 whatever is stored. -/
+theorem served_response_exact (g : G) (rs : List Req) (hm : g.mutex = true) (hl : g.lock = false)
+    (hlog : g.log = []) (hcrl : g.crl = none) (hfresh : ∀ r ∈ rs, r.fresh) (evs : List Ev) (pem : Bool) :
+    let s := machine.run (g, rs) evs
+    (crlHandler false s.1 pem).status = 404 ∧
+    ((crlHandler true s.1 pem).status = 200 →
+      ∃ c, (crlHandler true s.1 pem).body = some c ∧ s.1.log.head? = some c ∧
+        (∀ c' ∈ s.1.log, c'.number ≤ c.number) ∧
+        (crlHandler true s.1 pem).expires = c.thisUpdate + s.1.cache ∧ (crlHandler true s.1 pem).pem = pem) := by
+  intro s
+  refine ⟨rfl, ?_⟩
+  have hnew := served_is_newest g rs hm hl (by rw [hlog]; exact List.Pairwise.nil) (by rw [hlog, hcrl]; rfl) hfresh evs
+  have hint := interval_new (g, rs) evs
+  intro h200
+  unfold crlHandler at h200 ⊢
+  cases hc : s.1.crl with
+  | none => simp [hc] at h200
+  | some c =>
+    simp only [hc]
+    refine ⟨c, rfl, by rw [← hnew.1]; exact hc, fun c' hc' => hnew.2 c' hc' c hc, ?_, rfl⟩
+    obtain ⟨hcache, new, hl2, hall⟩ := hint
+    have hmem : c ∈ new := by
+      have : c ∈ s.1.log := by
+        have := hnew.1; rw [hc] at this
+        cases hlg : s.1.log with
+        | nil => rw [hlg] at this; cases this
+        | cons x r => rw [hlg] at this; simp at this; subst this; exact List.mem_cons_self
+      rw [hl2, hlog] at this; simpa using this
+    show c.nextUpdate = c.thisUpdate + s.1.cache
+    rw [hall c hmem, hcache]
+
+/-- the distribution point is the configured URL, or the CA's own /1.0/crl URL -/
+theorem idp_exact (configured dns : Str) :
+    (configured ≠ [] → idpURL configured dns = configured) ∧
+    (configured = [] → idpURL configured dns = Verif.s "https://" ++ dns ++ Verif.s "/1.0/crl") := by
+  unfold idpURL; constructor <;> intro h <;> simp [h]
+
+/-! ## 5c. one process-wide CRL section (since 7329bb4): old and new authority on one database -/
+
+/-- forget what depends on the cache duration: the NextUpdate of the lists -/
+def erC (c : CRLRec) : CRLRec := { c with nextUpdate := 0 }
+def er (g : G) : G := { g with cache := 0, crl := g.crl.map erC, log := g.log.map erC }
+
+theorem erC_mk (p : Option Nat) (sn : List (Str × RevRec)) (now c c' : Nat) :
+    erC (mkCRL p sn now c) = erC (mkCRL p sn now c') := by
+  simp [erC, mkCRL]
+
+theorem er_number (a b : Option CRLRec) (h : a.map erC = b.map erC) : a.map (·.number) = b.map (·.number) := by
+  cases a <;> cases b <;> simp [erC] at h ⊢
+  exact h.1
+
+/-- **cache_irrelevant.** The cache duration influences nothing but the NextUpdate of the lists: two states that
+    agree up to it stay in agreement, and the request's own evolution is identical. -/
+theorem step_congr (g g' : G) (r : Req) (h : er g = er g') :
+    er (step g r).1 = er (step g' r).1 ∧ (step g r).2 = (step g' r).2 := by
+  cases g with
+  | mk rv crl log lock cache mutex =>
+    cases g' with
+    | mk rv' crl' log' lock' cache' mutex' =>
+      simp only [er, G.mk.injEq] at h
+      obtain ⟨h1, h2, h3, h4, _, h6⟩ := h
+      subst h1 h4 h6
+      have hn := er_number crl crl' h2
+      unfold step failExit
+      (repeat' split) <;> simp_all [er] <;> exact erC_mk ..
+
+/-- `on_revoke_visible` from any state satisfying the invariants (not only from a fresh one) -/
+theorem on_revoke_visible_inv (s : G × List Req) (hi : Inv s) (hq : Q s) (evs1 evs2 : List Ev) (R : Req)
+    (hR : R ∈ (machine.run s evs1).2) (hk : R.inp.kind = .revoke true) (hok : R.out = .ok) :
+    (R.inp.key, R.inp.record) ∈ (machine.run s evs1).1.revoked ∧
+    ∃ new, (machine.run s (evs1 ++ evs2)).1.log = new ++ (machine.run s evs1).1.log ∧
+      ∀ c ∈ new, keep c.thisUpdate (R.inp.key, R.inp.record) = true →
+        (R.inp.key, R.inp.record.revokedAt) ∈ c.entries := by
+  have h1 := Machine.run_inv machine (fun s => Inv s ∧ Q s)
+    (fun s e ⟨hi, hq⟩ => ⟨inv_exec s e hi, q_exec s e hi hq⟩) evs1 s ⟨hi, hq⟩
+  have hK : K (ent R) (machine.run s evs1) := (h1.2 R hR hk).2 (.inl hok)
+  have h2 := Machine.run_inv machine (W (ent R) (machine.run s evs1).1.log)
+    (fun s e h => w_exec _ _ s e h) evs2 (machine.run s evs1) ⟨hK, [], rfl, fun c hc => by cases hc⟩
+  rw [Machine.run_append]
+  exact ⟨hK.1, h2.2⟩
+
+/-! ### one process-wide mutex: the two-authority machine refines the one-authority machine -/
+
+/-- a tick of the old generator that was cancelled by the stop is a request that is never scheduled -/
+def prS (q : Req2) : Req :=
+  if q.old ∧ q.r.pc = 0 ∧ q.r.out = .dropped then { q.r with out := .pending } else q.r
+
+/-- well-formed stop markers: inert, not old, not a revocation -/
+def StopWF (q : Req2) : Prop :=
+  q.stop = true → q.old = false ∧ q.r.out = .ok ∧ q.r.holding = false ∧ q.r.inp.kind = .gen ∧ q.r.pc = 6
+
+def Rel (s2 : G2 × List Req2) (s : G × List Req) : Prop :=
+  s2.1.shared = true ∧ er s2.1.g = er s.1 ∧ s2.2.map prS = s.2 ∧ ∀ q ∈ s2.2, StopWF q
+
+theorem step_not_dropped (g : G) (r : Req) (h : r.out ≠ .dropped) : (step g r).2.out ≠ .dropped := by
+  unfold step failExit; (repeat' split) <;> simp_all
+
+theorem set_same {α : Type} (l : List α) (t : Nat) (a : α) (h : l[t]? = some a) : l.set t a = l := by
+  apply List.ext_getElem?
+  intro i
+  rw [List.getElem?_set]
+  by_cases hti : t = i
+  · subst hti
+    rcases List.getElem?_eq_some_iff.1 h with ⟨hlt, hl⟩
+    simp [hlt, hl]
+  · simp [hti]
+
+theorem er_restart (now : Nat) (g g' : G) (h : er g = er g') : er (restartG now g) = er (restartG now g') := by
+  cases g; cases g'; simp only [er, restartG, G.mk.injEq] at h ⊢; simp_all
+
+theorem step2_nonpending (g2 : G2) (q : Req2) (hstop : q.stop = false) (hnp : q.r.out ≠ .pending)
+    (hsh : g2.shared = true) :
+    (step2 g2 q).1.g = g2.g ∧ (step2 g2 q).1.shared = true ∧ (step2 g2 q).2 = q := by
+  cases q with
+  | mk old r stop =>
+    simp only at hstop hnp
+    subst hstop
+    have hn : ¬ (g2.oldStopped = true ∧ r.pc = 0 ∧ r.out = .pending) := fun h => hnp h.2.2
+    cases old with
+    | true =>
+      simp [step2, hn, hsh, step_nonpending _ _ hnp, oldView]
+    | false =>
+      simp [step2, step_nonpending _ _ hnp, hsh]
+
+theorem prS_cancel (q : Req2) (hold : q.old = true) (hpc : q.r.pc = 0) (hp : q.r.out = .pending) :
+    prS { q with r := { q.r with out := .dropped } } = prS q := by
+  cases q with
+  | mk old r stop =>
+    cases r with
+    | mk inp pc holding prev snap out =>
+      simp only at hold hpc hp
+      subst hold hpc hp
+      simp [prS]
+
+theorem step2_cancel (g2 : G2) (q : Req2) (hstop : q.stop = false) (hold : q.old = true)
+    (hs : g2.oldStopped = true) (hpc : q.r.pc = 0) (hp : q.r.out = .pending) :
+    step2 g2 q = (g2, { q with r := { q.r with out := .dropped } }) := by
+  unfold step2; simp [hstop, hold, hs, hpc, hp]
+
+theorem step2_real (g2 : G2) (q : Req2) (hstop : q.stop = false) (hsh : g2.shared = true)
+    (hcan : ¬ (q.old = true ∧ g2.oldStopped = true ∧ q.r.pc = 0 ∧ q.r.out = .pending)) :
+    er (step2 g2 q).1.g = er (step g2.g q.r).1 ∧ (step2 g2 q).2.r = (step g2.g q.r).2 ∧
+    (step2 g2 q).1.shared = true ∧ (step2 g2 q).2.stop = false := by
+  cases q with
+  | mk old r stop =>
+    simp only at hstop hcan
+    subst hstop
+    cases old with
+    | false => simp [step2, hsh]
+    | true =>
+      have hn : ¬ (g2.oldStopped = true ∧ r.pc = 0 ∧ r.out = .pending) := fun h => hcan ⟨rfl, h.1, h.2.1, h.2.2⟩
+      have hv : er (oldView g2) = er g2.g := by unfold oldView er; simp [hsh]
+      obtain ⟨c1, c2⟩ := step_congr (oldView g2) g2.g r hv
+      simp only [step2, hn, hsh, if_true, if_false, Bool.false_eq_true]
+      refine ⟨?_, c2, trivial, trivial⟩
+      rw [← c1]; simp [er]
+
+/-- one event of the two-authority machine is one event of the one-authority machine, or none -/
+theorem rel_exec (s2 : G2 × List Req2) (s : G × List Req) (e : Ev) (h : Rel s2 s) :
+    Rel (machine2.exec s2 e) (machine.exec s e) ∨ Rel (machine2.exec s2 e) s := by
+  obtain ⟨hsh, her, hmap, hwf⟩ := h
+  cases e with
+  | restart now =>
+    left
+    refine ⟨hsh, ?_, ?_, ?_⟩
+    · simp only [Machine.exec, machine2, machine, restartG2]; exact er_restart now _ _ her
+    · simp only [Machine.exec, machine2, machine, ← hmap, List.map_map]
+      apply List.map_congr_left
+      intro q _
+      simp only [Function.comp, restartL2, prS]
+      by_cases hc : q.old = true ∧ q.r.pc = 0 ∧ q.r.out = .dropped
+      · have : restartL q.r = q.r := by unfold restartL; simp [hc.2.2]
+        simp [this, hc]; unfold restartL; simp [hc.2.1]
+      · have hc' : ¬ (q.old = true ∧ (restartL q.r).pc = 0 ∧ (restartL q.r).out = .dropped) := by
+          intro ⟨a, b, c⟩
+          apply hc
+          revert b c; unfold restartL; split
+          · rename_i hh; intro b; simp at b; exact absurd b hh.2
+          · intro b c; exact ⟨a, b, c⟩
+        simp [hc, hc']
+    · intro q hq
+      simp only [Machine.exec, machine2] at hq
+      rcases List.mem_map.1 hq with ⟨q', hq', rfl⟩
+      intro hst
+      obtain ⟨a, b, c, d, e'⟩ := hwf q' hq' hst
+      refine ⟨a, ?_, ?_, ?_, ?_⟩ <;> (simp only [restartL2]; unfold restartL; simp [b, c, d, e'])
+  | step t =>
+    cases hr : s2.2[t]? with
+    | none =>
+      left
+      have hr' : s.2[t]? = none := by rw [← hmap]; simp [hr]
+      simp [Machine.exec, hr, hr']; exact ⟨hsh, her, hmap, hwf⟩
+    | some q =>
+      have hmem := mem_of_getElem? _ _ _ hr
+      have hr' : s.2[t]? = some (prS q) := by rw [← hmap]; simp [hr]
+      have hex2 : machine2.exec s2 (.step t) = ((step2 s2.1 q).1, s2.2.set t (step2 s2.1 q).2) := by
+        simp [Machine.exec, machine2, hr]
+      have hex : machine.exec s (.step t) = ((step s.1 (prS q)).1, s.2.set t (step s.1 (prS q)).2) := by
+        simp [Machine.exec, machine, hr']
+      rw [hex2, hex]
+      -- the three cases in which the one-authority machine does nothing
+      have stutter : (step2 s2.1 q).1.g = s2.1.g → (step2 s2.1 q).1.shared = true → prS (step2 s2.1 q).2 = prS q →
+          StopWF (step2 s2.1 q).2 → Rel ((step2 s2.1 q).1, s2.2.set t (step2 s2.1 q).2) s := by
+        intro h1 h2 h3 h4
+        refine ⟨h2, by rw [h1]; exact her, ?_, forall_set _ s2.2 t _ hwf h4⟩
+        show (s2.2.set t (step2 s2.1 q).2).map prS = s.2
+        rw [List.map_set, h3, hmap]
+        exact set_same s.2 t (prS q) hr'
+      by_cases hstop : q.stop = true
+      · right
+        obtain ⟨a, b, c, d, e'⟩ := hwf q hmem hstop
+        have hs2 : step2 s2.1 q = ({ s2.1 with oldStopped := true }, q) := by unfold step2; simp [hstop]
+        rw [hs2] at stutter ⊢
+        exact stutter rfl hsh rfl (hwf q hmem)
+      · have hstop : q.stop = false := by simpa using hstop
+        by_cases hnp : q.r.out ≠ .pending
+        · -- a finished (or cancelled) request: nothing happens
+          right
+          obtain ⟨n1, n2, n3⟩ := step2_nonpending s2.1 q hstop hnp hsh
+          exact stutter n1 n2 (by rw [n3]) (by rw [n3]; exact hwf q hmem)
+        · have hp : q.r.out = .pending := by simpa using hnp
+          have hprq : prS q = q.r := by unfold prS; simp [hp]
+          by_cases hcan : q.old = true ∧ s2.1.oldStopped = true ∧ q.r.pc = 0 ∧ q.r.out = .pending
+          · -- a tick of the stopped old generator: cancelled
+            right
+            have hs2 := step2_cancel s2.1 q hstop hcan.1 hcan.2.1 hcan.2.2.1 hp
+            rw [hs2] at stutter ⊢
+            exact stutter rfl hsh (prS_cancel q hcan.1 hcan.2.2.1 hp) (by intro h; simp [hstop] at h)
+          · -- a real step, under the process-wide mutex
+            left
+            obtain ⟨k1, k2, k3, k5⟩ := step2_real s2.1 q hstop hsh hcan
+            obtain ⟨c1, c2⟩ := step_congr s2.1.g s.1 q.r her
+            have hnd : (step2 s2.1 q).2.r.out ≠ .dropped := by
+              rw [k2]; exact step_not_dropped _ _ (by rw [hp]; simp)
+            have hpr' : prS (step2 s2.1 q).2 = (step s.1 (prS q)).2 := by
+              unfold prS; simp [hnd]; rw [k2, c2]
+              have : prS q = q.r := hprq
+              unfold prS at this; rw [this]
+            refine ⟨k3, by rw [k1, c1, hprq], ?_, forall_set _ s2.2 t _ hwf (fun h => by rw [k5] at h; cases h)⟩
+            show (s2.2.set t (step2 s2.1 q).2).map prS = s.2.set t (step s.1 (prS q)).2
+            rw [List.map_set, hpr', hmap]
+
+theorem rel_run (s2 : G2 × List Req2) (s : G × List Req) (evs : List Ev) (h : Rel s2 s) :
+    ∃ evs', Rel (machine2.run s2 evs) (machine.run s evs') := by
+  induction evs generalizing s2 s with
+  | nil => exact ⟨[], h⟩
+  | cons e evs ih =>
+    rcases rel_exec s2 s e h with h' | h'
+    · obtain ⟨evs', hr⟩ := ih _ _ h'
+      exact ⟨e :: evs', hr⟩
+    · obtain ⟨evs', hr⟩ := ih _ _ h'
+      exact ⟨evs', hr⟩
+
+theorem numbers_er (g g' : G) (h : er g = er g') : numbers g = numbers g' := by
+  have hl : g.log.map erC = g'.log.map erC := by
+    have := congrArg G.log h; simpa [er] using this
+  have : g.log.map (·.number) = g'.log.map (·.number) := by
+    have := congrArg (List.map (·.number)) hl
+    have he : ((fun x : CRLRec => x.number) ∘ erC) = (fun x => x.number) := by funext x; simp [erC]
+    simpa [List.map_map, he] using this
+  unfold numbers; rw [this]
+
+theorem step_log (g : G) (r : Req) : (step g r).1.log = g.log ∨ ∃ c, (step g r).1.log = c :: g.log := by
+  unfold step failExit
+  (repeat' split) <;> first | (left; rfl) | (left; simp; done) | (right; exact ⟨_, rfl⟩)
+
+theorem step2_log (g2 : G2) (q : Req2) :
+    (step2 g2 q).1.g.log = g2.g.log ∨ ∃ c, (step2 g2 q).1.g.log = c :: g2.g.log := by
+  unfold step2
+  split
+  · left; rfl
+  · split
+    · split
+      · left; rfl
+      · have := step_log (oldView g2) q.r
+        simpa [oldView] using this
+    · exact step_log g2.g q.r
+
+theorem log_grows2 (s2 : G2 × List Req2) (evs : List Ev) :
+    ∃ new, (machine2.run s2 evs).1.g.log = new ++ s2.1.g.log := by
+  refine Machine.run_inv machine2 (fun s' => ∃ new, s'.1.g.log = new ++ s2.1.g.log) ?_ evs s2 ⟨[], rfl⟩
+  intro s' e ⟨new, hn⟩
+  cases e with
+  | restart now => exact ⟨new, by simpa [Machine.exec, machine2, restartG2, restartG] using hn⟩
+  | step t =>
+    simp only [Machine.exec, machine2]
+    cases hr : s'.2[t]? with
+    | none => exact ⟨new, hn⟩
+    | some q =>
+      show ∃ new, (step2 s'.1 q).1.g.log = new ++ s2.1.g.log
+      rcases step2_log s'.1 q with h | ⟨c, h⟩
+      · exact ⟨new, by rw [h, hn]⟩
+      · exact ⟨c :: new, by rw [h, hn]; rfl⟩
+
+/-- the initial state of a two-authority history: requests that have not arrived yet, and stop markers -/
+def Init2 (qs : List Req2) : Prop := ∀ q ∈ qs, StopWF q ∧ (q.stop = false → q.r.fresh)
+
+theorem init_rel (g2 : G2) (qs : List Req2) (hsh : g2.shared = true) (hm : g2.g.mutex = true) (hl : g2.g.lock = false)
+    (hsorted : g2.g.log.Pairwise (fun a b => a.number > b.number)) (hcrl : g2.g.crl = g2.g.log.head?)
+    (hq : Init2 qs) :
+    Rel (g2, qs) (g2.g, qs.map prS) ∧ Inv (g2.g, qs.map prS) ∧ Q (g2.g, qs.map prS) := by
+  have hshape : ∀ q ∈ qs, (prS q).holding = false ∧ Loc (prS q) ∧
+      ((prS q).inp.kind = .revoke true → (prS q).fresh) := by
+    intro q hq'
+    obtain ⟨hw, hf⟩ := hq q hq'
+    cases hst : q.stop with
+    | true =>
+      obtain ⟨a, b, c, d, e⟩ := hw hst
+      have : prS q = q.r := by unfold prS; simp [a]
+      rw [this]
+      refine ⟨c, ?_, fun h => by rw [d] at h; cases h⟩
+      unfold Loc; simp [b, c]
+    | false =>
+      obtain ⟨f1, f2, f3⟩ := hf hst
+      have : prS q = q.r := by unfold prS; simp [f3]
+      rw [this]
+      refine ⟨f2, ?_, fun _ => ⟨f1, f2, f3⟩⟩
+      unfold Loc; simp [f1, f2, f3]
+  refine ⟨⟨hsh, rfl, rfl, fun q hq' => (hq q hq').1⟩, ⟨hm, hsorted, hcrl, ?_, ?_⟩, ?_⟩
+  · simp [hl]
+    intro q hq'
+    exact (hshape q hq').1
+  · intro r hr
+    rcases List.mem_map.1 hr with ⟨q, hq', rfl⟩
+    exact ⟨(hshape q hq').2.1, fun h => by rw [(hshape q hq').1] at h; cases h⟩
+  · intro r hr hk
+    rcases List.mem_map.1 hr with ⟨q, hq', rfl⟩
+    obtain ⟨a, b, c⟩ := (hshape q hq').2.2 hk
+    refine ⟨fun _ h => by omega, fun h => ?_⟩
+    rcases h with h | ⟨_, h⟩
+    · rw [c] at h; cases h
+    · omega
+
+/-- **shared_mutex_numbers_increase.** With one process-wide CRL section (the code since 7329bb4): an old and a
+    new authority on one database — generations (ticks, start-up, forced) and revocations of both, requests of the
+    old one still in flight while the new one is built, the old generator stopped at any moment of the history or
+    never, restarts anywhere — under every interleaving the numbers of the lists ever stored strictly increase. -/
+theorem shared_mutex_numbers_increase (g2 : G2) (qs : List Req2) (hsh : g2.shared = true) (hm : g2.g.mutex = true)
+    (hl : g2.g.lock = false) (hsorted : g2.g.log.Pairwise (fun a b => a.number > b.number))
+    (hcrl : g2.g.crl = g2.g.log.head?) (hq : Init2 qs) (evs : List Ev) :
+    (numbers (machine2.run (g2, qs) evs).1.g).Pairwise (· < ·) := by
+  obtain ⟨hrel, hinv, _⟩ := init_rel g2 qs hsh hm hl hsorted hcrl hq
+  obtain ⟨evs', hr⟩ := rel_run (g2, qs) (g2.g, qs.map prS) evs hrel
+  rw [numbers_er _ _ hr.2.1]
+  exact numbers_increase_inv _ hinv evs'
+
+/-- **shared_mutex_revoke_visible.** Same setting: once a generate-on-revoke revocation — served by the old or by
+    the new authority — has been acknowledged, every list stored afterwards by either authority contains its
+    serial with its revocation time, unless the certificate expired more than the retention window before that
+    list's thisUpdate. -/
+theorem shared_mutex_revoke_visible (g2 : G2) (qs : List Req2) (hsh : g2.shared = true) (hm : g2.g.mutex = true)
+    (hl : g2.g.lock = false) (hsorted : g2.g.log.Pairwise (fun a b => a.number > b.number))
+    (hcrl : g2.g.crl = g2.g.log.head?) (hq : Init2 qs) (evs1 evs2 : List Ev) (R : Req2)
+    (hR : R ∈ (machine2.run (g2, qs) evs1).2) (hk : R.r.inp.kind = .revoke true) (hok : R.r.out = .ok) :
+    ∃ new, (machine2.run (g2, qs) (evs1 ++ evs2)).1.g.log = new ++ (machine2.run (g2, qs) evs1).1.g.log ∧
+      ∀ c ∈ new, keep c.thisUpdate (R.r.inp.key, R.r.inp.record) = true →
+        (R.r.inp.key, R.r.inp.record.revokedAt) ∈ c.entries := by
+  obtain ⟨hrel, hinv, hQ⟩ := init_rel g2 qs hsh hm hl hsorted hcrl hq
+  obtain ⟨e1, r1⟩ := rel_run (g2, qs) (g2.g, qs.map prS) evs1 hrel
+  have r2' := rel_run (machine2.run (g2, qs) evs1) (machine.run (g2.g, qs.map prS) e1) evs2 r1
+  obtain ⟨e2, r2⟩ := r2'
+  -- the acknowledged request in the one-authority run
+  have hRb : prS R ∈ (machine.run (g2.g, qs.map prS) e1).2 := by
+    rw [← r1.2.2.1]; exact List.mem_map.2 ⟨R, hR, rfl⟩
+  have hprR : prS R = R.r := by unfold prS; simp [hok]
+  rw [hprR] at hRb
+  obtain ⟨_, newb, hlb, hallb⟩ := on_revoke_visible_inv _ hinv hQ e1 e2 R.r hRb hk hok
+  rw [Machine.run_append] at hlb
+  obtain ⟨new2, hl2⟩ := log_grows2 (machine2.run (g2, qs) evs1) evs2
+  rw [Machine.run_append]
+  refine ⟨new2, hl2, ?_⟩
+  -- the two histories of stored lists agree up to NextUpdate
+  have hlog1 : (machine2.run (g2, qs) evs1).1.g.log.map erC = (machine.run (g2.g, qs.map prS) e1).1.log.map erC := by
+    have := congrArg G.log r1.2.1; simpa [er] using this
+  have hlog2 : (machine2.run (machine2.run (g2, qs) evs1) evs2).1.g.log.map erC =
+      (machine.run (machine.run (g2.g, qs.map prS) e1) e2).1.log.map erC := by
+    have := congrArg G.log r2.2.1; simpa [er] using this
+  rw [hl2, hlb, List.map_append, List.map_append, ← hlog1] at hlog2
+  have hnew : new2.map erC = newb.map erC := by
+    have hlen : (new2.map erC).length = (newb.map erC).length := by
+      have := congrArg List.length hlog2
+      simp only [List.length_append, List.length_map] at this ⊢
+      omega
+    exact (List.append_inj hlog2 hlen).1
+  intro c hc hkeep
+  have : erC c ∈ newb.map erC := by rw [← hnew]; exact List.mem_map.2 ⟨c, hc, rfl⟩
+  rcases List.mem_map.1 this with ⟨c', hc', hce⟩
+  have ht : c'.thisUpdate = c.thisUpdate := by have := congrArg CRLRec.thisUpdate hce; simpa [erC] using this
+  have he : c'.entries = c.entries := by have := congrArg CRLRec.entries hce; simpa [erC] using this
+  rw [← he]
+  exact hallb c' hc' (by rw [ht]; exact hkeep)
+
+/-- an old request in flight, a new start-up generation and a revocation served by the new authority, under one
+    mutex: whatever the schedule, e.g. the one of `reload_inflight_overlap`, the numbers increase -/
+example : numbers (machine2.run ({ inflightState.1 with shared := true, oldLock := false, g := { inflightState.1.g with lock := true } },
+    inflightState.2)
+    [.step 1, .step 1, .step 0, .step 0, .step 1, .step 1, .step 1, .step 1, .step 1,
+     .step 2, .step 2, .step 2, .step 2, .step 2, .step 2, .step 2]).1.g = [0, 1, 2, 3] := by decide
+
 /-! ## 6. the critical section as the code has it (regenerated table) -/
+
+/-- **crl_mutex_shared.** Regenerated from /repo on every run: the mutex `GenerateCertificateRevocationList` takes is a
+    package-level variable, one for every `Authority` of the process — the hypothesis `shared = true` of
+    `shared_mutex_numbers_increase` / `shared_mutex_revoke_visible` (before 7329bb4 it was a field of `Authority`:
+    `reload_inflight_overlap`). -/
+theorem crl_mutex_shared : Verif.Generated.Locks.crlMutexShared = true := by decide
 
 /-- **crl_section.** Regenerated from /repo on every run (extractor table `Locks`):
     `GenerateCertificateRevocationList` takes `crlMutex` at the top with a deferred unlock, and
